@@ -17,7 +17,7 @@ PKGDIR = {"tally": ".", "tally_test": ".", "v2_test": "m3/thrift/v2", "v2": "m3/
 
 
 def sh(cmd, cwd=None, timeout=1500):
-    p = subprocess.run(cmd, cwd=cwd, env=ENV, stdout=subprocess.PIPE, stderr=subprocess.STDOUT, text=True, timeout=timeout)
+    p = subprocess.run(cmd, cwd=cwd, env=ENV, stdout=subprocess.PIPE, stderr=subprocess.STDOUT, text=True, errors="replace", timeout=timeout)
     return p.returncode, p.stdout
 
 
